@@ -294,11 +294,21 @@ func checkC14(c *Check) {
 						sinks = append(sinks, sink{x.Val, "DeniedHttpResponse.Body", x, fn, false})
 					case pkgStatus + ".Status.Message":
 						sinks = append(sinks, sink{x.Val, "Status.Message", x, fn, false})
-					case pkgEnvoyCore + ".HeaderValue.Key", pkgEnvoyCore + ".HeaderValue.Value", pkgEnvoyCore + ".HeaderValue.RawValue":
+					case pkgEnvoyCore + ".HeaderValue.RawValue":
 						sinks = append(sinks, sink{x.Val, shortID(fieldAddrID(fa)), x, fn, inOK})
 					}
 				}
 			}
+		}
+	}
+	// header keys and values, resolved through header-building helpers to the function that decides them
+	for _, hs := range headerSites(P, R) {
+		inOK := hs.Fn == R.AllowFn
+		if hs.KeyVal != nil {
+			sinks = append(sinks, sink{hs.KeyVal, "v3.HeaderValue.Key", hs.At, hs.Fn, inOK})
+		}
+		if hs.Val != nil {
+			sinks = append(sinks, sink{hs.Val, "v3.HeaderValue.Value", hs.At, hs.Fn, inOK})
 		}
 	}
 	nDeny := 0
